@@ -41,6 +41,7 @@ package wal
 
 //@ func setupNextWriter
 //@   props C07
+//@   replay wal_model
 //@   requires a != nil && a.walOptions != nil
 //@   ensures [numbers-ascend] r0 == nil ==> a.nextWriterNumber == old(a.nextWriterNumber) + 1
 //@   ensures [fresh-open-writer] r0 == nil ==> a.currentWriter != nil && a.currentWriter != old(a.currentWriter) && fresh(a.currentWriter) &&
@@ -52,6 +53,7 @@ package wal
 
 //@ func (*Appender).Rotate
 //@   props C07 C13
+//@   replay wal_model
 //@   requires a.currentWriter != nil && a.walOptions != nil
 //@   ensures [replaced-only-after-close] a.currentWriter != old(a.currentWriter) ==> wrClosed(old(a.currentWriter))
 //@   ensures [success-replaces-the-writer] r1 == nil ==> a.currentWriter != old(a.currentWriter) && fresh(a.currentWriter) && a.currentWriter != nil &&
@@ -64,6 +66,7 @@ package wal
 
 //@ func checkSizeAndRotate
 //@   props C07
+//@   replay wal_model
 //@   requires a != nil && a.currentWriter != nil && a.walOptions != nil && 0 <= nextRecordSize
 //@   requires wrSize(a.currentWriter) >= 0 && wrSize(a.currentWriter) < 4611686018427387904
 //@   ensures [replaced-only-after-close] a.currentWriter != old(a.currentWriter) ==> wrClosed(old(a.currentWriter)) && fresh(a.currentWriter) &&
@@ -78,6 +81,7 @@ package wal
 
 //@ func (*Appender).Append
 //@   props C07 C17
+//@   replay wal_model
 //@   requires a.currentWriter != nil && a.walOptions != nil && wrSize(a.currentWriter) >= 0 && wrSize(a.currentWriter) < 4611686018427387904
 //@   ensures [replaced-only-after-close] a.currentWriter != old(a.currentWriter) ==> wrClosed(old(a.currentWriter))
 //@   ensures [closed-files-get-no-more-records] a.currentWriter != old(a.currentWriter) ==> wrCount(old(a.currentWriter)) == old(wrCount(a.currentWriter))
@@ -89,6 +93,7 @@ package wal
 
 //@ func (*Appender).AppendSync
 //@   props C07 C17 C02
+//@   replay wal_model
 //@   requires a.currentWriter != nil && a.walOptions != nil && wrSize(a.currentWriter) >= 0 && wrSize(a.currentWriter) < 4611686018427387904
 //@   ensures [replaced-only-after-close] a.currentWriter != old(a.currentWriter) ==> wrClosed(old(a.currentWriter))
 //@   ensures [closed-files-get-no-more-records] a.currentWriter != old(a.currentWriter) ==> wrCount(old(a.currentWriter)) == old(wrCount(a.currentWriter))
